@@ -17,6 +17,9 @@ Definition refs_of (u : units) : list string := match u with ULocal _ r => r | U
 Section Resolvable.
   Variable fs : fsys.
 
+  (* (A premise "the referenced units exists and is satisfiable" is written as two premises, existence and
+     "whatever is found is satisfiable", so that the generated induction principles carry the hypothesis.) *)
+
   (* [RU cm u]: the units [u] of model [cm] can be satisfied: an import finds its file, the file is a CellML
      model holding the referenced units, and that units can be satisfied in turn; a local units needs every
      units it references (other than the standard ones) to exist in its model and to be satisfiable.
@@ -28,21 +31,24 @@ Section Resolvable.
       RU sm su ->
       RU cm (UImp n sid url ref)
   | RU_local : forall cm n refs,
-      (forall r, In r refs -> is_std r = false -> exists cu, find_units (m_units cm) r = Some cu /\ RU cm cu) ->
+      (forall r, In r refs -> is_std r = false -> find_units (m_units cm) r <> None) ->
+      (forall r cu, In r refs -> is_std r = false -> find_units (m_units cm) r = Some cu -> RU cm cu) ->
       RU cm (ULocal n refs).
 
   (* [RC cm c]: the component [c] of model [cm] can be satisfied: its import (if any) finds file and component,
      which can be satisfied; the units of its variables exist and can be satisfied; so can its children. *)
   Inductive RC : model -> comp -> Prop :=
   | RC_local : forall cm n used kids,
-      (forall un, In un used -> is_std un = false -> exists su, find_units (m_units cm) un = Some su /\ RU cm su) ->
+      (forall un, In un used -> is_std un = false -> find_units (m_units cm) un <> None) ->
+      (forall un su, In un used -> is_std un = false -> find_units (m_units cm) un = Some su -> RU cm su) ->
       (forall k, In k kids -> RC cm k) ->
       RC cm (Comp n None used kids)
   | RC_imp : forall cm n sid url ref used kids sm sc,
       fs_model fs (mk_key url) = Some sm ->
       find_comp (m_comps sm) ref = Some sc ->
       RC sm sc ->
-      (forall un, In un used -> is_std un = false -> exists su, find_units (m_units cm) un = Some su /\ RU cm su) ->
+      (forall un, In un used -> is_std un = false -> find_units (m_units cm) un <> None) ->
+      (forall un su, In un used -> is_std un = false -> find_units (m_units cm) un = Some su -> RU cm su) ->
       (forall k, In k kids -> RC cm k) ->
       RC cm (Comp n (Some (sid, url, ref)) used kids).
 
@@ -88,9 +94,9 @@ Section CodeSpec.
       cycs fs m0 hist (fetch_epoch o url) = false ->
       find_units (m_units sm) ref = Some su ->
       FU (Some (mk_key url)) (hist ++ [fetch_epoch o url]) su ->
-      (forall r, In r (refs_of su) -> is_std r = false ->
-                 exists cu, find_units (m_units sm) r = Some cu /\
-                            FU (Some (mk_key url)) (hist ++ [fetch_epoch o url]) cu) ->
+      (forall r, In r (refs_of su) -> is_std r = false -> find_units (m_units sm) r <> None) ->
+      (forall r cu, In r (refs_of su) -> is_std r = false -> find_units (m_units sm) r = Some cu ->
+                    FU (Some (mk_key url)) (hist ++ [fetch_epoch o url]) cu) ->
       FU o hist (UImp n sid url ref).
 
   (* [FC o hist c]: ImporterImpl::fetchComponent(c) answers true *)
@@ -104,9 +110,9 @@ Section CodeSpec.
       find_comp (m_comps sm) ref = Some sc ->
       FC (Some (mk_key url)) (hist ++ [fetch_epoch o url]) sc ->
       (forall k, In k (ckids sc) -> FC (Some (mk_key url)) (hist ++ [fetch_epoch o url]) k) ->
-      (forall un, In un (cused sc) -> is_std un = false ->
-                  exists su, find_units (m_units sm) un = Some su /\
-                             FU (Some (mk_key url)) (hist ++ [fetch_epoch o url]) su) ->
+      (forall un, In un (cused sc) -> is_std un = false -> find_units (m_units sm) un <> None) ->
+      (forall un su, In un (cused sc) -> is_std un = false -> find_units (m_units sm) un = Some su ->
+                     FU (Some (mk_key url)) (hist ++ [fetch_epoch o url]) su) ->
       FC o hist (Comp n (Some (sid, url, ref)) used kids).
 
   (* what resolveImports(m0) on a fresh importer demands *)
@@ -137,7 +143,8 @@ Definition child_comps (m : model) : list comp := flat_map (fun c => flat_map su
      S1 a local units referenced by a local units references standard units only,
      S2 a local units used by a variable references standard units only,
      S3 the units used by an encapsulated (non top-level) component exist, are local and reference standard
-        units only. *)
+        units only,
+     S4 an imported component that is itself an encapsulated child has no children of its own. *)
 Definition Shallow (fs : fsys) : Prop :=
   forall k sm, fs_model fs k = Some sm ->
     (forall u r cu, In u (m_units sm) -> is_local u -> In r (refs_of u) -> is_std r = false ->
@@ -145,7 +152,8 @@ Definition Shallow (fs : fsys) : Prop :=
     (forall c un su, In c (all_comps sm) -> In un (cused c) -> is_std un = false ->
                      find_units (m_units sm) un = Some su -> is_local su -> only_std su) /\
     (forall c un, In c (child_comps sm) -> In un (cused c) -> is_std un = false ->
-                  exists su, find_units (m_units sm) un = Some su /\ is_local su /\ only_std su).
+                  exists su, find_units (m_units sm) un = Some su /\ is_local su /\ only_std su) /\
+    (forall c, In c (child_comps sm) -> cimp c <> None -> ckids c = []).
 
 (* URLs imported by a model, anywhere *)
 Definition units_url (u : units) : list string := match u with UImp _ _ url _ => [url] | ULocal _ _ => [] end.
